@@ -149,6 +149,8 @@ def judge(S: dict, r: dict) -> str | None:
     if crashed:
         # the rest of the runtime shuts down rather than continuing in a damaged state
         if oracle == 'crash':
+            if any(e[0] == 'ran-after-shutdown' for e in r['log'] if isinstance(e, tuple)):
+                return 'crash:worker-kept-running-task-code-after-it-processed-shutdown'
             if w.server.running and 'server' not in r['crashed']:
                 return 'crash:server-still-running'
             for m in w.managers:
